@@ -779,6 +779,8 @@ func (vc *VC) contractCall(fr *frame, st *State, site ssa.Instruction, fc *FuncC
 	vc.assumeStateAxioms(st)
 	if fc.Trusted {
 		vc.note("trusted contract: " + fc.Key)
+	} else if fc.Modular && !vc.w.verifiedHere[fc.Key] {
+		vc.note("trusted contract: " + fc.Key + " (verified where it is listed, not in this check)")
 	}
 	return res
 }
